@@ -1,13 +1,20 @@
 package main
 
 // C01 — schema validation accepts exactly the values the schema allows.
-// Real code exercised: (*openapi3.Schema).VisitJSON (default settings) on schemas unmarshalled from JSON.
+// Real code exercised: every entry point that "validates a value against a schema" at verdict level:
+// (*openapi3.Schema).VisitJSON with default settings and with FailFast(), IsMatching and the typed
+// IsMatchingJSONBoolean/Number/String/Array/Object helpers, on schemas unmarshalled from JSON; under the request /
+// response readings and with DisablePatternValidation where the schema calls for them; and, for schemas with a
+// pattern, AFTER an earlier validation of the same pattern text in the same process under another regex compiler
+// (SetSchemaRegexCompiler) — the process-wide compiled-pattern cache must not carry one call's engine into the next.
 // The schema/value generators and the regex/format oracle tables are shared with C12 and C19.
 
 import (
 	"encoding/json"
 	"fmt"
+	"reflect"
 	"regexp"
+	"runtime/debug"
 	"sort"
 	"strings"
 	"sync"
@@ -20,9 +27,11 @@ import (
 func init() {
 	hx.Register(&hx.Prop{
 		ID: "C01",
-		Rule: "exhaustive: every schema made of one or two keyword atoms (41 atoms over all supported keywords, boundary-valued) and every composition " +
-			"(allOf/anyOf/oneOf/not/items/properties/additionalProperties) over 14 leaf sub-schemas, alone and combined with 9 top-level atoms, crossed with a 30-value alphabet " +
-			"(all six JSON types, nested, boundary values of every bound ±1); plus a seeded random stream of schemas of depth ≤ 3 with up to 4 keywords per level and values derived from the schema. " +
+		Rule: "exhaustive: every schema made of one or two keyword atoms (boundary-valued atoms over all supported keywords, incl. non-ASCII patterns / enums / property names) and every composition " +
+			"(allOf/anyOf/oneOf/not/items/properties/additionalProperties) over leaf sub-schemas, alone and combined with top-level atoms, crossed with a value alphabet " +
+			"(all six JSON types, nested, boundary values of every bound ±1, strings of 1-, 2-, 3- and 4-byte runes and combining marks); the complete string-length family (minLength × maxLength over {absent,0..5,10} × 24 strings mixing rune widths); " +
+			"the discriminator family; plus a seeded random stream of schemas of depth ≤ 3 with up to 4 keywords per level. Each case is observed through VisitJSON, VisitJSON(FailFast()), IsMatching and the typed IsMatchingJSON* helper; " +
+			"a schema with readOnly/writeOnly also under the request/response readings, a schema with a pattern also with DisablePatternValidation and after a history step under another regex compiler (negating / case-insensitive / literal). " +
 			"A case is non-trivial when the schema has at least one keyword (the driver reports the keyword set, nesting, value type and verdict).",
 		Exhaustive: true,
 		Gen:        genC01,
@@ -32,7 +41,8 @@ func init() {
 		Assumptions: []string{
 			"numbers are exact rationals in the model; generated numbers are dyadic rationals / small integers on which the float64 comparisons and the division of multipleOf are exact",
 			"regular-expression and string-format verdicts are oracle bits computed by Go (regexp, the registered validators) and passed to the model",
-			"values are fed as decoded by encoding/json (float64); discriminator, readOnly/writeOnly contexts belong to C12/C06/C08",
+			"values are fed as decoded by encoding/json (float64, valid UTF-8 strings); Go strings that are not valid UTF-8 are not JSON values and are not generated",
+			"string length is counted in Unicode code points on both sides (draft-4: characters as defined by RFC 4627 = what Lean's String.length counts); the code's loop also counts code points (its utf16.IsSurrogate branch is dead for valid UTF-8)",
 		},
 	})
 }
@@ -128,7 +138,60 @@ func ctxOpts(c hx.Case) []openapi3.SchemaValidationOption {
 	if jbool(c, "woOff") {
 		o = append(o, openapi3.DisableWriteOnlyValidation())
 	}
+	if jbool(c, "patOff") {
+		o = append(o, openapi3.DisablePatternValidation())
+	}
+	if jbool(c, "dfl") {
+		o = append(o, openapi3.DefaultsSet(func() {}))
+	}
 	return o
+}
+
+// ---------------------------------------------------------------- regex compilers other than the default one
+
+type negMatcher struct{ re *regexp.Regexp }
+
+func (m negMatcher) MatchString(s string) bool { return !m.re.MatchString(s) }
+
+type litMatcher struct{ p string }
+
+func (m litMatcher) MatchString(s string) bool { return strings.Contains(s, m.p) }
+
+// c01Compilers: engines whose semantics differ from the default translation on almost every input.
+var c01Compilers = map[string]openapi3.RegexCompilerFunc{
+	"negate": func(p string) (openapi3.RegexMatcher, error) { // the complement language
+		re, err := regexp.Compile(p)
+		if err != nil {
+			return nil, err
+		}
+		return negMatcher{re}, nil
+	},
+	"icase": func(p string) (openapi3.RegexMatcher, error) {
+		re, err := regexp.Compile("(?i)" + p)
+		if err != nil {
+			return nil, err
+		}
+		return re, nil
+	},
+	"lit":   func(p string) (openapi3.RegexMatcher, error) { return litMatcher{p}, nil }, // every text "compiles"
+}
+var c01CompilerNames = []string{"negate", "icase", "lit"}
+
+// typedMatching calls the IsMatchingJSON* helper for the value's JSON type (nil: there is none for null).
+func typedMatching(s *openapi3.Schema, v any) any {
+	switch x := v.(type) {
+	case bool:
+		return s.IsMatchingJSONBoolean(x)
+	case float64:
+		return s.IsMatchingJSONNumber(x)
+	case string:
+		return s.IsMatchingJSONString(x)
+	case []any:
+		return s.IsMatchingJSONArray(x)
+	case map[string]any:
+		return s.IsMatchingJSONObject(x)
+	}
+	return nil
 }
 
 func runC01(c hx.Case) any {
@@ -136,8 +199,25 @@ func runC01(c hx.Case) any {
 	if err != nil {
 		return map[string]any{"kind": "schema-unmarshal-error", "err": err.Error()}
 	}
-	err = s.VisitJSON(plainValue(c["value"]), ctxOpts(c)...)
-	return map[string]any{"ok": err == nil}
+	co := ctxOpts(c)
+	// the history of the process before the observed calls: the same validation under other regex compilers
+	pre := []any{}
+	for _, st := range jlist(c["pre"]) {
+		sm, _ := st.(map[string]any)
+		comp := c01Compilers[jstr(sm, "compiler")]
+		e := s.VisitJSON(plainValue(c["value"]), append(append([]openapi3.SchemaValidationOption{}, co...), openapi3.SetSchemaRegexCompiler(comp))...)
+		pre = append(pre, e == nil)
+	}
+	v := plainValue(c["value"])
+	out := map[string]any{"pre": pre, "ok": s.VisitJSON(v, co...) == nil,
+		"ff": s.VisitJSON(plainValue(c["value"]), append(append([]openapi3.SchemaValidationOption{}, co...), openapi3.FailFast())...) == nil}
+	if len(co) == 0 { // the boolean helpers take no option
+		out["matching"] = s.IsMatching(plainValue(c["value"]))
+		if t := typedMatching(s, plainValue(c["value"])); t != nil {
+			out["typed"] = t
+		}
+	}
+	return out
 }
 
 func cmpC01(c hx.Case, impl any, reply map[string]any) hx.Verdict {
@@ -156,6 +236,36 @@ func cmpC01(c hx.Case, impl any, reply map[string]any) hx.Verdict {
 	v := hx.Verdict{IM: jbool(im, "ok") == jbool(model, "ok"), IS: jbool(im, "ok") == jbool(spec, "sat")}
 	if !v.IM || !v.IS {
 		v.Detail = fmt.Sprintf("VisitJSON ok=%v, model ok=%v, spec sat=%v", jbool(im, "ok"), jbool(model, "ok"), jbool(spec, "sat"))
+	}
+	// the fail-fast entry points: VisitJSON(FailFast()), IsMatching, IsMatchingJSON<Type>
+	for _, k := range []string{"ff", "matching", "typed"} {
+		b, has := im[k].(bool)
+		if !has {
+			continue
+		}
+		if b != jbool(model, "ff") {
+			v.IM = false
+		}
+		if b != jbool(spec, "sat") {
+			v.IS = false
+			v.Detail += fmt.Sprintf(" | fail-fast entry point %q says %v, spec sat=%v", k, b, jbool(spec, "sat"))
+		}
+	}
+	// history steps: each call's verdict is that of its own regex compiler
+	ip, mp, sp := jlist(im["pre"]), jlist(model["pre"]), jlist(spec["pre"])
+	for i := range ip {
+		b, _ := ip[i].(bool)
+		if i >= len(mp) || i >= len(sp) {
+			v.IM = false
+			continue
+		}
+		if mb, _ := mp[i].(bool); mb != b {
+			v.IM = false
+		}
+		if sb, _ := sp[i].(bool); sb != b {
+			v.IS = false
+			v.Detail += fmt.Sprintf(" | history step %d (regex compiler %v): VisitJSON ok=%v, spec for that compiler %v", i, jlist(c["pre"])[i].(map[string]any)["compiler"], b, sb)
+		}
 	}
 	return v
 }
@@ -200,12 +310,95 @@ func collectKw(schema any, key string, out map[string]bool) {
 	}
 }
 
+// schemaText: the JSON text of a schema, remembered for the schema last asked about (the generators emit a schema with
+// all its values in a row)
+var lastSchema map[string]any // kept referenced, so that its address cannot be reused by another schema
+var lastSchemaText string
+
+func schemaText(s any) string {
+	m, ok := s.(map[string]any)
+	if !ok {
+		b, _ := json.Marshal(s)
+		return string(b)
+	}
+	if lastSchema == nil || reflect.ValueOf(m).Pointer() != reflect.ValueOf(lastSchema).Pointer() {
+		b, _ := json.Marshal(m)
+		lastSchema, lastSchemaText = m, string(b)
+	}
+	return lastSchemaText
+}
+
+func hasObject(v any) bool {
+	switch x := v.(type) {
+	case map[string]any:
+		return true
+	case []any:
+		for _, e := range x {
+			if hasObject(e) {
+				return true
+			}
+		}
+	}
+	return false
+}
+
 var regexCache sync.Map
 
-// withOracle adds the regex/format verdict tables the model needs for this schema and value.
+// collectDefaultStrings: the strings inside every `default` of the schema tree
+func collectDefaultStrings(schema any, out map[string]bool) {
+	switch m := schema.(type) {
+	case map[string]any:
+		for k, v := range m {
+			if k == "default" {
+				collectStrings(v, out)
+			} else {
+				collectDefaultStrings(v, out)
+			}
+		}
+	case []any:
+		for _, e := range m {
+			collectDefaultStrings(e, out)
+		}
+	}
+}
+
+// compilerTable: the verdicts of a non-default regex compiler, computed by calling it directly
+func compilerTable(name string, ps, ss []string) []any {
+	rx := []any{}
+	for _, p := range ps {
+		var m openapi3.RegexMatcher
+		key := name + "\x00" + p
+		if r, ok := regexCache.Load(key); ok {
+			m, _ = r.(openapi3.RegexMatcher)
+		} else {
+			m, _ = c01Compilers[name](p)
+			regexCache.Store(key, m)
+		}
+		for _, s := range ss {
+			if m == nil {
+				rx = append(rx, []any{p, s, nil})
+			} else {
+				rx = append(rx, []any{p, s, m.MatchString(s)})
+			}
+		}
+	}
+	return rx
+}
+
+func caseHash(c hx.Case) int {
+	h := 0
+	for _, b := range []byte(hx.Canon(c["schema"]) + hx.Canon(c["value"])) {
+		h = (h*31 + int(b)) & 0xffffff
+	}
+	return h
+}
+
+// withOracle adds the regex/format verdict tables the model needs for this schema and value, and — for a schema with a
+// pattern, unless the case already has one — the history step under another regex compiler.
 func withOracle(c hx.Case) hx.Case {
 	strs := map[string]bool{}
 	collectStrings(c["value"], strs)
+	collectDefaultStrings(c["schema"], strs) // an injected default is visited like any member
 	pats, fmts := map[string]bool{}, map[string]bool{}
 	collectKw(c["schema"], "pattern", pats)
 	collectKw(c["schema"], "format", fmts)
@@ -235,6 +428,24 @@ func withOracle(c hx.Case) hx.Case {
 				rx = append(rx, []any{p, s, re.MatchString(s)})
 			}
 		}
+	}
+	if len(ps) > 0 && !jbool(c, "nohist") {
+		var pre []any
+		if old := jlist(c["pre"]); len(old) > 0 { // a replayed / shrunk case keeps its compilers, tables are recomputed
+			for _, st := range old {
+				sm, _ := st.(map[string]any)
+				pre = append(pre, map[string]any{"compiler": jstr(sm, "compiler"), "regex": compilerTable(jstr(sm, "compiler"), ps, ss)})
+			}
+		} else {
+			// first the negating compiler (its verdict differs from the default one on every visited string, so the case shows a
+			// cache that carries engines over even when replayed alone in a fresh process), then one of the two others
+			name := []string{"icase", "lit"}[caseHash(c)%2]
+			pre = []any{map[string]any{"compiler": "negate", "regex": compilerTable("negate", ps, ss)},
+				map[string]any{"compiler": name, "regex": compilerTable(name, ps, ss)}}
+		}
+		c["pre"] = pre
+	} else {
+		delete(c, "pre")
 	}
 	fs := make([]string, 0, len(fmts))
 	for f := range fmts {
@@ -274,11 +485,13 @@ var c01Atoms = []kwAtom{
 	{"enum", []any{1, "a"}}, {"enum", []any{nil}}, {"enum", []any{[]any{1}, map[string]any{"a": 1}}},
 	{"minimum", 1}, {"maximum", 2}, {"exclusiveMinimum", true}, {"exclusiveMaximum", true},
 	{"multipleOf", 0.5}, {"multipleOf", 2}, {"multipleOf", 0},
-	{"minLength", 2}, {"maxLength", 2}, {"pattern", "^a"}, {"pattern", "(("}, {"format", "date"}, {"format", "int32"}, {"format", "nosuchformat"}, {"format", "ipv4"}, {"format", "x-wrapped-ip"},
+	{"minLength", 2}, {"maxLength", 2}, {"pattern", "^a"}, {"pattern", "(("}, {"format", "date"}, {"format", "int32"}, {"format", "nosuchformat"}, {"format", "ipv4"}, {"format", "ipv6"}, {"format", "x-wrapped-ip"},
 	{"minItems", 1}, {"maxItems", 1}, {"uniqueItems", true},
 	{"required", []any{"a"}}, {"minProperties", 1}, {"maxProperties", 1}, {"additionalProperties", false}, {"additionalProperties", true},
 	{"minimum", 2147483647}, {"maximum", -1}, {"minLength", 0}, {"maxLength", 0}, {"maxItems", 0}, {"required", []any{"a", "b"}}, {"maxProperties", 0},
 	{"readOnly", true}, {"writeOnly", true},
+	// non-ASCII text in every place a string of the schema meets a string of the value; `default` as an own keyword (no effect on validation)
+	{"pattern", "^é"}, {"pattern", "^.{2}$"}, {"enum", []any{"é", "😀"}}, {"required", []any{"é"}}, {"minLength", 3}, {"maxLength", 4}, {"default", "d"},
 }
 
 var c01TopAtoms = []kwAtom{
@@ -291,11 +504,14 @@ func c01Leafs() []map[string]any {
 		{"enum": []any{1, "a"}}, {"maxLength": 1}, {"type": "object", "required": []any{"a"}}, {"type": "array", "maxItems": 1},
 		{"not": map[string]any{}}, {"multipleOf": 2}, {"type": "boolean"}, {"minimum": 1, "maximum": 2},
 		{"readOnly": true}, {"writeOnly": true, "type": "integer"},
+		{"type": "string", "minLength": 2, "maxLength": 3},
 	}
 }
 
 var c01Scalars = []any{
 	nil, true, false, 0, 1, 2, 3, 1.5, 0.5, -1, 2147483647, 2147483648, "", "a", "ab", "abc", "b", "2020-01-01", "1", "true", "1.5", "null",
+	// 2-, 3- and 4-byte runes, a combining sequence, a mix: byte length ≠ UTF-16 length ≠ number of code points
+	"é", "éé", "日本語", "😀", "e\u0301", "aé😀",
 }
 
 var c01Values = append(append([]any{}, c01Scalars...), []any{
@@ -307,7 +523,39 @@ var c01Values = append(append([]any{}, c01Scalars...), []any{
 	map[string]any{"a": "", "b": nil}, map[string]any{"c": nil},
 	map[string]any{"p": map[string]any{"a": 1}}, map[string]any{"p": map[string]any{}}, []any{map[string]any{"a": 1}}, []any{map[string]any{}},
 	map[string]any{"a": map[string]any{"a": 1}, "b": 1}, map[string]any{"a": map[string]any{}},
+	map[string]any{"é": 1}, []any{"é", "e\u0301"}, map[string]any{"a": "éé"},
 }...)
+
+// ---------------------------------------------------------------- the string-length family (complete)
+
+var c01LenBounds = []any{nil, 0, 1, 2, 3, 4, 5, 10}
+
+// strings mixing 1-, 2-, 3- and 4-byte runes (a non-BMP rune is 4 bytes, 2 UTF-16 units, 1 code point), combining marks, the empty string
+var c01LenStrings = []string{
+	"", "a", "ab", "abc", "abcd", "abcde", "abcdef", "abcdefghij", "abcdefghijk",
+	"é", "éé", "ééé", "ééééé", "éééééé", "日", "日本", "日本語", "日本語テキ", "😀", "😀😀", "😀😀😀", "😀😀😀😀😀", "a😀", "e\u0301", "e\u0301e\u0301", "aé日😀", "a\u0300\u0301\u0302", "👨\u200d👩\u200d👧",
+}
+
+func c01LenCases() []hx.Case {
+	var out []hx.Case
+	for _, lo := range c01LenBounds {
+		for _, hi := range c01LenBounds {
+			sch := map[string]any{}
+			if lo != nil {
+				sch["minLength"] = lo
+			}
+			if hi != nil {
+				sch["maxLength"] = hi
+			}
+			for _, str := range c01LenStrings {
+				out = append(out, hx.Case{"schema": sch, "value": str})
+				out = append(out, hx.Case{"schema": map[string]any{"not": sch}, "value": str})
+				out = append(out, hx.Case{"schema": map[string]any{"type": "object", "additionalProperties": mergeAtoms(sch, kwAtom{"type", "string"})}, "value": map[string]any{str: str}})
+			}
+		}
+	}
+	return out
+}
 
 func mergeAtoms(base map[string]any, atoms ...kwAtom) map[string]any {
 	out := map[string]any{}
@@ -374,7 +622,7 @@ func c01Schemas(ctx *hx.Ctx) []map[string]any {
 	out = append(out, comps...)
 	for i, cmp := range comps {
 		for j, a := range c01TopAtoms {
-			if !ctx.Thorough() && (i+j)%3 != 0 {
+			if !ctx.Thorough() && (i+j)%4 != 0 {
 				continue
 			}
 			if _, clash := cmp[a.k]; clash {
@@ -411,7 +659,11 @@ func randSchema(r *hx.Rng, depth int) map[string]any {
 				p := map[string]any{}
 				for _, k := range []string{"a", "b", "c"} {
 					if r.Chance(50) {
-						p[k] = randSchema(r, depth-1)
+						ps := randSchema(r, depth-1)
+						if r.Chance(35) { // a default: any scalar, or a small container (valid or not for the property's own schema)
+							ps["default"] = randValue(r, r.Intn(2))
+						}
+						p[k] = ps
 					}
 				}
 				s["properties"] = p
@@ -491,14 +743,33 @@ func c01DiscCases() []hx.Case {
 }
 
 // emitCtx emits a case as it is and, when the schema says readOnly/writeOnly somewhere, also under the request and the
-// response reading, with and without the switch-off options.
-func emitCtx(emit func(hx.Case), c hx.Case) {
+// response reading, with and without the switch-off options; when it has a pattern, also with DisablePatternValidation;
+// and (withDfl: C12) when it has a `default`, also with DefaultsSet under both readings and alone.
+func emitCtx(emit func(hx.Case), c hx.Case, withDfl bool, thorough bool) {
 	emit(withOracle(c))
-	b, _ := json.Marshal(c["schema"])
-	if !strings.Contains(string(b), "Only\"") {
-		return
+	js := schemaText(c["schema"])
+	var variants []map[string]any
+	if strings.Contains(js, "Only\"") {
+		// the readings are only looked at when an OBJECT is visited: for a value without one the quick tier keeps one variant in four
+		if thorough || hasObject(c["value"]) {
+			variants = append(variants, map[string]any{"ctx": "asreq"}, map[string]any{"ctx": "asrep"},
+				map[string]any{"ctx": "asreq", "roOff": true}, map[string]any{"ctx": "asrep", "woOff": true})
+		} else if caseHash(c)%4 == 0 {
+			variants = append(variants, map[string]any{"ctx": "asreq"})
+		}
 	}
-	for _, v := range []map[string]any{{"ctx": "asreq"}, {"ctx": "asrep"}, {"ctx": "asreq", "roOff": true}, {"ctx": "asrep", "woOff": true}} {
+	if strings.Contains(js, "\"pattern\"") {
+		variants = append(variants, map[string]any{"patOff": true})
+	}
+	if withDfl && strings.Contains(js, "\"default\"") {
+		variants = append(variants, map[string]any{"ctx": "asreq", "dfl": true}, map[string]any{"ctx": "asrep", "dfl": true}, map[string]any{"dfl": true})
+		if strings.Contains(js, "Only\"") {
+			variants = append(variants, map[string]any{"ctx": "asreq", "dfl": true, "roOff": true}, map[string]any{"ctx": "asrep", "dfl": true, "woOff": true})
+		} else {
+			variants = append(variants, map[string]any{"ctx": "asreq"})
+		}
+	}
+	for _, v := range variants {
 		x := cloneCase(c)
 		for k, val := range v {
 			x[k] = val
@@ -507,28 +778,111 @@ func emitCtx(emit func(hx.Case), c hx.Case) {
 	}
 }
 
-func genC01(ctx *hx.Ctx, emit func(hx.Case)) {
+func genC01(ctx *hx.Ctx, emit func(hx.Case)) { genSchemaCases(ctx, emit, false, 1) }
+
+// genSchemaCases is the generator shared by C01 and C12 (C12: withDfl, which adds the default-injection family and the
+// DefaultsSet variants of every schema with a `default`). `stride` thins the big schema × value product in the quick
+// tier deterministically (schema i meets value j iff (i+j) % stride == 0); the thorough tier is always complete.
+func genSchemaCases(ctx *hx.Ctx, emit func(hx.Case), withDfl bool, stride int) {
+	if ctx.Thorough() {
+		stride = 1
+	}
+	debug.SetGCPercent(400) // the run allocates short-lived JSON trees only; the collector otherwise takes a fifth of the CPU
 	for i, c := range c01DiscCases() {
 		if !ctx.Thorough() && i%2 == 1 && i%7 != 0 {
 			continue
 		}
 		emit(withOracle(c))
 	}
-	for _, s := range c01Schemas(ctx) {
-		for _, v := range c01Values {
-			emitCtx(emit, hx.Case{"schema": s, "value": v})
+	for _, c := range c01LenCases() {
+		emit(withOracle(c))
+	}
+	if withDfl {
+		for i, s := range c12DfltSchemas() {
+			for j, v := range c12DfltValues {
+				if !ctx.Thorough() && i >= 40 && (i+j)%3 != 0 {
+					continue
+				}
+				emitCtx(emit, hx.Case{"schema": s, "value": v}, true, ctx.Thorough())
+			}
+		}
+	}
+	for i, s := range c01Schemas(ctx) {
+		for j, v := range c01Values {
+			if (i+j)%stride != 0 {
+				continue
+			}
+			emitCtx(emit, hx.Case{"schema": s, "value": v}, withDfl, ctx.Thorough())
 		}
 	}
 	n := 6000
 	if ctx.Thorough() {
 		n = 150000
+		if withDfl { // C12 observes seven paths per case and the DefaultsSet variants: a shorter stream keeps it inside the budget
+			n = 80000
+		}
 	}
 	for i := 0; i < n; i++ {
 		s := randSchema(ctx.Rng, 1+ctx.Rng.Intn(3))
 		for j := 0; j < 3; j++ {
-			emitCtx(emit, hx.Case{"schema": s, "value": randValue(ctx.Rng, 1+ctx.Rng.Intn(3))})
+			emitCtx(emit, hx.Case{"schema": s, "value": randValue(ctx.Rng, 1+ctx.Rng.Intn(3))}, withDfl, ctx.Thorough())
 		}
 	}
+}
+
+// ---------------------------------------------------------------- the default-injection family (C12)
+
+func c12DfltSchemas() []map[string]any {
+	props := func(p map[string]any, extra ...kwAtom) map[string]any { return mergeAtoms(map[string]any{"properties": p}, extra...) }
+	D := []map[string]any{
+		props(map[string]any{"a": map[string]any{"default": "d"}}),
+		props(map[string]any{"a": map[string]any{"type": "integer", "default": 5}}, kwAtom{"type", "object"}, kwAtom{"required", []any{"a"}}),
+		props(map[string]any{"a": map[string]any{"type": "string", "default": 7}}), // the default violates its own schema
+		props(map[string]any{"b": map[string]any{"default": map[string]any{"c": 1}, "properties": map[string]any{"c": map[string]any{"type": "string"}}}}),
+		props(map[string]any{"b": map[string]any{"type": "object", "properties": map[string]any{"c": map[string]any{"default": "x"}}}}, kwAtom{"maxProperties", 1}),
+		props(map[string]any{"a": map[string]any{"default": 1, "readOnly": true}, "b": map[string]any{"default": 2, "writeOnly": true}}),
+		props(map[string]any{"a": map[string]any{"default": "d"}}, kwAtom{"additionalProperties", false}, kwAtom{"minProperties", 2}),
+		props(map[string]any{"a": map[string]any{"default": []any{1, 1}, "uniqueItems": true}}),
+		props(map[string]any{"a": map[string]any{"default": nil}}, kwAtom{"required", []any{"a"}}),
+		props(map[string]any{"a": map[string]any{"default": "d", "enum": []any{"d", "e"}}, "k": map[string]any{"enum": []any{"x"}}}, kwAtom{"required", []any{"k"}}),
+		props(map[string]any{"b": map[string]any{"properties": map[string]any{"c": map[string]any{"default": "x"}}}, "a": map[string]any{"type": "string"}}),
+		props(map[string]any{"a": map[string]any{"default": "d", "nullable": true, "type": "string"}}, kwAtom{"enum", []any{map[string]any{}, map[string]any{"a": "d"}}}),
+	}
+	others := []map[string]any{
+		{"type": "object", "required": []any{"a"}, "properties": map[string]any{"a": map[string]any{"type": "integer"}}},
+		{"type": "string"},
+		{"properties": map[string]any{"k": map[string]any{"enum": []any{"x"}}}, "required": []any{"k"}},
+		{},
+		{"properties": map[string]any{"b": map[string]any{"maxProperties": 0}}},
+	}
+	var out []map[string]any
+	out = append(out, D...)
+	for _, d := range D {
+		out = append(out, map[string]any{"not": d}, map[string]any{"items": d}, map[string]any{"additionalProperties": d},
+			map[string]any{"properties": map[string]any{"p": d}}, map[string]any{"properties": map[string]any{"p": d}, "required": []any{"p"}},
+			// what a `not` child leaves behind meets the schema's own keywords
+			mergeAtoms(map[string]any{"not": d}, kwAtom{"properties", map[string]any{"b": map[string]any{"maxProperties": 0}, "a": map[string]any{"type": "integer"}}}),
+			mergeAtoms(map[string]any{"not": mergeAtoms(d, kwAtom{"required", []any{"zz"}})}, kwAtom{"maxProperties", 1}),
+			map[string]any{"properties": map[string]any{"p": map[string]any{"oneOf": []any{d, map[string]any{"type": "string"}}}}})
+	}
+	all := append(append([]map[string]any{}, D...), others...)
+	for _, k := range []string{"allOf", "anyOf", "oneOf"} {
+		for _, d := range D {
+			out = append(out, map[string]any{k: []any{d}})
+			for _, e := range all {
+				out = append(out, map[string]any{k: []any{d, e}}, map[string]any{k: []any{e, d}})
+				out = append(out, map[string]any{k: []any{d, e}, "properties": map[string]any{"b": map[string]any{"default": map[string]any{}}}})
+			}
+		}
+	}
+	return out
+}
+
+var c12DfltValues = []any{
+	map[string]any{}, map[string]any{"a": 1}, map[string]any{"a": "s"}, map[string]any{"a": nil}, map[string]any{"b": map[string]any{}},
+	map[string]any{"b": map[string]any{"c": 1}}, map[string]any{"b": map[string]any{"c": "s"}}, map[string]any{"k": "x"}, map[string]any{"a": "d", "k": "x"},
+	map[string]any{"a": 1, "b": map[string]any{}}, map[string]any{"a": true, "b": map[string]any{}}, map[string]any{"p": map[string]any{}}, map[string]any{"p": map[string]any{"a": 1}},
+	[]any{map[string]any{}}, []any{map[string]any{"a": "s"}, map[string]any{}}, map[string]any{"x": map[string]any{}, "y": map[string]any{"a": 2}}, "str", nil, 1,
 }
 
 // ---------------------------------------------------------------- shrinking (shared)
